@@ -472,7 +472,7 @@ class Run:
         self.evals = 0
         self.hashes = set()
         self.samples = []
-        self.cov = {"states": {}, "reactions": {}, "forced": 0, "graceful": 0, "newcomers": 0, "stalls": 0,
+        self.cov = {"connection_states": {}, "reactions": {}, "forced": 0, "graceful": 0, "newcomers": 0, "stalls": 0,
                     "connections_at_stop": 0, "reconnect_due_cases": 0, "by_nconn": {}, "handshakes_completed_during_stop": 0}
 
     def witness(self, key, detail, replay=None):
@@ -490,7 +490,7 @@ class Run:
         self.evals += 1
         sp = c.spec
         for st, re in sp["conns"]:
-            self.cov["states"][st] = self.cov["states"].get(st, 0) + 1
+            self.cov["connection_states"][st] = self.cov["connection_states"].get(st, 0) + 1
             self.cov["reactions"][re] = self.cov["reactions"].get(re, 0) + 1
         self.cov["forced" if sp["force"] else "graceful"] += 1
         self.cov["by_nconn"][str(len(sp["conns"]))] = self.cov["by_nconn"].get(str(len(sp["conns"])), 0) + 1
@@ -638,7 +638,7 @@ def replay(obj):
 def finish(tier, seed, cov, evaluations):
     out = []
     for st in STATES:
-        if cov.get("states", {}).get(st, 0) == 0:
+        if cov.get("connection_states", {}).get(st, 0) == 0:
             out.append(f"connection state {st} never present at stop time")
     for re in REACTIONS:
         if cov.get("reactions", {}).get(re, 0) == 0:
